@@ -66,6 +66,33 @@ def err_ident_of(text):
 # ---------------------------------------------------------------------------------------------
 # (T) tables
 # ---------------------------------------------------------------------------------------------
+def result_maker():
+    """returns mk_result(r): a synthetic test_case_processing.Result for a result descriptor"""
+    from exactly_lib.execution.full_execution import result as fres
+    from exactly_lib.execution.result import ActionToCheckOutcome
+    from exactly_lib.execution.failure_info import ActPhaseFailureInfo
+    from exactly_lib.execution import phase_step
+    from exactly_lib.test_case.result.failure_details import FailureDetails
+    from exactly_lib.processing import test_case_processing as tcp
+    from exactly_lib.tcfs.sds import SandboxDs
+    from exactly_lib.test_case import error_description
+    fi = ActPhaseFailureInfo(phase_step.CONFIGURATION__MAIN, FailureDetails.new_constant_message('MSG'), 'actor', 'src')
+
+    def mk_result(r):
+        if r[0] == 'executed':
+            st = fres.FullExeResultStatus[r[1]]
+            sds = SandboxDs('/SDS-ROOT') if r[2] else None
+            atc = None if r[3] is None else ActionToCheckOutcome(r[3])
+            failure = None if r[1] in ('PASS', 'SKIPPED', 'XPASS') else fi
+            return tcp.new_executed(fres.FullExeResult(st, sds, atc, failure))
+        ei = tcp.ErrorInfo(error_description.of_constant_message('MSG'))
+        if r[0] == 'access':
+            return tcp.new_access_error(tcp.AccessErrorType[r[1]], ei)
+        return tcp.new_internal_error(ei)
+
+    return mk_result
+
+
 def gen_tables(ctx):
     from exactly_lib.execution.full_execution import result as fres, execution as fexe
     from exactly_lib.execution.result import ExecutionFailureStatus, PhaseStepFailure, ActionToCheckOutcome
@@ -102,17 +129,7 @@ def gen_tables(ctx):
         rows.append('(%s, %s)' % (FAILS[ps.name], r.status.name))
     lines.append('Definition gen_conf_status_translation : list (fail_status * full_status) :=\n  %s.' % clist(rows))
 
-    def mk_result(r):
-        if r[0] == 'executed':
-            st = fres.FullExeResultStatus[r[1]]
-            sds = SandboxDs('/SDS-ROOT') if r[2] else None
-            atc = None if r[3] is None else ActionToCheckOutcome(r[3])
-            failure = None if r[1] in ('PASS', 'SKIPPED', 'XPASS') else fi
-            return tcp.new_executed(fres.FullExeResult(st, sds, atc, failure))
-        ei = tcp.ErrorInfo(error_description.of_constant_message('MSG'))
-        if r[0] == 'access':
-            return tcp.new_access_error(tcp.AccessErrorType[r[1]], ei)
-        return tcp.new_internal_error(ei)
+    mk_result = result_maker()
 
     # a completely executed case (PASS/FAIL/XPASS/XFAIL) always has an outcome of the action to check
     all_results = ([('executed', s, h, c) for s in FULL for h in (True, False) for c in (None, 0, 7, 255)
